@@ -131,6 +131,7 @@ STATEMENTS = [
     'l += [{N}]; l', 'x = [1]; f = v => [push(v, 5), x][1]; y = [x]; push(y, x); x += [2]; y', 's += {S}; x = [s]; s += "!"; [x, s]',
     'x = {LN}; y = [0]; insert(y, 0, x); x += {LN}; x -= 0 if False else 0' if False else 'x = {LN}; y = [0]; insert(y, 0, x); x += {LN}; y',
     # a literal evaluated more than once builds a new container each time
+    'f = v => []; push(f(0), 1); push(f(0), 2); f(0)', 'f = v => ⟦⟧; __setitem__(f(0), "a", 1); f(0)', 'map([1, 2], v => push([], v))', 'f = v => [[]]; push(f(0)[0], 1); f(0)',
     'g = v => pop([1, 2, 3]); [g(0), g(0), g(0)]', 'g = v => push([1], v); [g(1), g(2)]', 'map([0, 0], v => pop([1, 2, 3]))', 'g = v => [[1], 2]; push(g(0)[0], 5); g(0)',
     'g = v => ⟦"a": 1, "b": 2⟧; remove(g(0), "a"); g(0)', 'map([1, 2], v => push([0], v))', 'g = v => insert([1, 2], 0, v); [g(7), g(8)]', 'f = v => [1, 2, 3] | pop; f(0) + f(0)',
     'u_undefined + {N}', '{N} + u_undefined', 'f_undefined({N})', '{B} or u_undefined', '{B} and f_undefined(1)', 'u_undefined += {N}',
